@@ -14,6 +14,7 @@ CONSTANTS
   SSizes = {1, 2}
   Filts = {"none"}
   Ops = {"pub", "rem"}
+  MaxJumps = 0
   Pres = {0, 1}
   N0s = {0, 1, 2}
   Contig = TRUE
